@@ -1262,3 +1262,59 @@ def shared_source_shape(prog: Program) -> bool:
         if len(nodes) >= 2 and any(n >= 2 for n in nodes.values()):
             return True
     return False
+
+
+def ir_floor_div_shape(prog: Program) -> bool:
+    """True if the program divides two compile-time constants of opposite sign with a remainder where at
+    least one of them is a *signal-typed* constant (projection of a constant, constant-valued name): the
+    shape the IR optimiser folds with floor division (open finding F-irdiv). Plain int / int is folded
+    on the syntax tree with truncation and is not meant."""
+    from .alu import arith as _arith
+
+    decls = {s.name: s for s in prog.stmts if isinstance(s, Decl)}
+
+    def const(e, depth=0):
+        """(value, is_plain_int) or None"""
+        if depth > 30:
+            return None
+        if isinstance(e, Paren):
+            return const(e.e, depth + 1)
+        if isinstance(e, Num):
+            return e.v, True
+        if isinstance(e, SigLit):
+            c = const(e.val, depth + 1) if not isinstance(e.val, int) else (e.val, True)
+            return None if c is None else (c[0], False)
+        if isinstance(e, Proj):
+            c = const(e.e, depth + 1)
+            return None if c is None else (c[0], False)
+        if isinstance(e, Un) and e.op in ("-", "+"):
+            c = const(e.e, depth + 1)
+            return None if c is None else ((-c[0] if e.op == "-" else c[0]), c[1])
+        if isinstance(e, Ref):
+            d = decls.get(e.name)
+            if d is None or is_input_decl(d):
+                return None
+            c = const(d.e, depth + 1)
+            if c is None:
+                return None
+            return c[0], c[1] and d.kind == "int"
+        if isinstance(e, Bin) and e.op in ARITH_OPS:
+            l, r = const(e.l, depth + 1), const(e.r, depth + 1)
+            if l is None or r is None:
+                return None
+            try:
+                return _arith(e.op, l[0], r[0]), l[1] and r[1]
+            except Exception:  # noqa: BLE001
+                return None
+        return None
+
+    def visit(e):
+        if isinstance(e, Bin) and e.op == "/":
+            l, r = const(e.l), const(e.r)
+            if l is not None and r is not None and not (l[1] and r[1]):
+                a, b = l[0], r[0]
+                if b != 0 and (a < 0) != (b < 0) and a % b != 0:
+                    return True
+        return any(visit(c) for c in children(e) if not isinstance(c, str))
+
+    return any(visit(e) for s in prog.stmts for e in stmt_exprs(s))
